@@ -696,6 +696,79 @@ def resolver_reuse(ctx):
     return n, problems
 
 
+def caller_list_history(ctx):
+    """consecutive recordings of ONE process that pass the SAME list objects (exclude patterns, prefix list, the global
+    default pattern list), edited in place between the calls: every recording applies the patterns / prefixes the list
+    holds AT THAT MOMENT.  -> (cases, problems)"""
+    import shutil
+    import in_toto.runlib as rl
+    import in_toto.settings as st
+    wd = os.path.join(ctx.work, "c10lists")
+    shutil.rmtree(wd, ignore_errors=True)
+    files = {"a.txt": b"a\n", "b.log": b"b\n", "src/m.c": b"m\n", "src/n.log": b"n\n", "pre/x.c": b"x\n"}
+    for k, v in files.items():
+        os.makedirs(os.path.dirname(os.path.join(wd, k)), exist_ok=True)
+        with open(os.path.join(wd, k), "wb") as fh:
+            fh.write(v)
+    sha = lambda b: hashlib.sha256(b).hexdigest()
+
+    def want(keep, strip=()):
+        out = {}
+        for k, v in files.items():
+            if keep(k):
+                name = k
+                for pfx in strip:
+                    if name.startswith(pfx):
+                        name = name[len(pfx):]
+                        break
+                out[name] = {"sha256": sha(v)}
+        return out
+    problems, n = [], 0
+    home = os.getcwd()
+    old_default = list(st.ARTIFACT_EXCLUDE_PATTERNS)
+    os.chdir(wd)
+    try:
+        # (1) the caller's exclude list
+        excl = ["*.log"]
+        steps = [("as passed first", None, lambda k: not k.endswith(".log")),
+                 ("after .append('src')", lambda: excl.append("src"), lambda k: not k.endswith(".log") and not k.startswith("src/")),
+                 ("after del [0]", lambda: excl.__delitem__(0), lambda k: not k.startswith("src/")),
+                 ("after [0] = 'a.*'", lambda: excl.__setitem__(0, "a.*"), lambda k: k != "a.txt")]
+        for label, edit, keep in steps:
+            if edit:
+                edit()
+            n += 1
+            got = rl.record_artifacts_as_dict(["."], exclude_patterns=excl)
+            if got != want(keep):
+                problems.append("exclude list %s (now %r): recorded %s, the patterns in force leave %s"
+                                % (label, excl, sorted(got), sorted(want(keep))))
+        # (2) the global default list, edited in place
+        for label, edit, keep in (("as shipped", None, lambda k: True),
+                                  ("after .append('*.log')", lambda: st.ARTIFACT_EXCLUDE_PATTERNS.append("*.log"), lambda k: not k.endswith(".log")),
+                                  ("after .remove('*.log')", lambda: st.ARTIFACT_EXCLUDE_PATTERNS.remove("*.log"), lambda k: True)):
+            if edit:
+                edit()
+            n += 1
+            got = rl.record_artifacts_as_dict(["."])
+            if got != want(keep):
+                problems.append("default pattern list %s: recorded %s, the patterns in force leave %s" % (label, sorted(got), sorted(want(keep))))
+        # (3) the caller's prefix list
+        strip = ["src/"]
+        for label, edit, cur in (("as passed first", None, ("src/",)), ("after [0] = 'pre/'", lambda: strip.__setitem__(0, "pre/"), ("pre/",))):
+            if edit:
+                edit()
+            n += 1
+            got = rl.record_artifacts_as_dict(["."], lstrip_paths=strip)
+            if got != want(lambda k: True, cur):
+                problems.append("prefix list %s (now %r): recorded names %s, expected %s" % (label, strip, sorted(got), sorted(want(lambda k: True, cur))))
+    except Exception as e:  # noqa
+        problems.append("history of recordings with caller-owned lists raised %s: %s" % (type(e).__name__, str(e)[:120]))
+    finally:
+        st.ARTIFACT_EXCLUDE_PATTERNS[:] = old_default
+        os.chdir(home)
+    return n, problems
+
+
 def run(ctx):
     n = 2500 if ctx.thorough() else 500
     if os.path.exists(core.COQ + "/Props/C10.v"):
@@ -710,6 +783,9 @@ def run(ctx):
     reuse_n, reuse_bad = resolver_reuse(ctx)
     for pr in reuse_bad[:3]:
         ctx.violation("resolver object asked again after an edit: " + pr, {"kind": "resolver_reuse", "what": pr})
+    cl_n, cl_bad = caller_list_history(ctx)
+    for pr in cl_bad[:3]:
+        ctx.violation("caller-owned list edited between two recordings: " + pr, {"kind": "caller_list_history", "what": pr})
     cases = pinned_cases() + [gen_case(ctx.rng) for _ in range(n)]
     recs, model = run_cases(ctx, cases)
     kn, kok, kdetail = core.kernel_sample(ctx, model, limit_chars=24000, max_cases=40)
@@ -789,8 +865,9 @@ def run(ctx):
 
 def replay(ctx, obj):
     rp = obj["replay"]
-    if rp.get("kind") in ("resolver_reuse", "unreadable_files"):
-        _, bad = resolver_reuse(ctx) if rp["kind"] == "resolver_reuse" else unreadable_files(ctx)
+    if rp.get("kind") in ("resolver_reuse", "unreadable_files", "caller_list_history"):
+        _, bad = (resolver_reuse(ctx) if rp["kind"] == "resolver_reuse" else caller_list_history(ctx) if rp["kind"] == "caller_list_history"
+                  else unreadable_files(ctx))
         for pr in bad:
             print("  -> " + pr)
         if bad:
